@@ -26,16 +26,19 @@ type Op struct {
 	Write bool           // conflicts with every other access to Obj (reads only with writes)
 	Ready func() bool    // nil = always enabled
 	ch    *chanOp        // channel / select operations
+	yield bool           // the thread offers its turn (runtime.Gosched, a long run of reads): others go first, for free
 }
 
 type Thread struct {
-	ID     int
-	Name   string
-	wake   chan struct{}
-	pend   *Op
-	done   bool
-	daemon bool
-	hash   uint64 // happens-before hash of this thread's history
+	spin    int  // consecutive operations of this thread that wrote nothing
+	yielded bool // it offered its turn and nobody else has made a step since: not offered to the explorer
+	ID      int
+	Name    string
+	wake    chan struct{}
+	pend    *Op
+	done    bool
+	daemon  bool
+	hash    uint64 // happens-before hash of this thread's history
 	// call/return stamps of the API call in progress (see Begin/End)
 	pendingInv bool
 	beginClock int
@@ -399,18 +402,40 @@ func (s *Sched) switchFrom(t *Thread) {
 	var en [24]*Thread
 	enabled := en[:0]
 	runEnabled := false
-	if s.isReady(t) {
+	// fairness: a thread that yields (runtime.Gosched), or that has made a long run of operations that
+	// write nothing while others could run (a busy-wait on an atomic flag), goes to the back of the queue
+	yielding := !t.done && t.pend != nil && (t.pend.yield || t.spin > 300)
+	if yielding {
+		t.yielded = true // until some other thread has made a step (see executed)
+	}
+	if !yielding && s.isReady(t) {
 		enabled = append(enabled, t)
 		runEnabled = true
 	}
 	// canonical order: the running thread, then ordinary threads by id, then environment
 	// (daemon) threads by id
 	for _, x := range s.threads {
-		if x != t && !x.daemon && s.isReady(x) {
+		if x != t && !x.daemon && !x.yielded && s.isReady(x) {
 			enabled = append(enabled, x)
 		} else if x.noBlock != "" && !x.done && x.pend != nil && s.NoBlockViolated == "" && (x != t || !runEnabled) && !s.isReady(x) && s.othersStable(x) {
 			s.NoBlockViolated = fmt.Sprintf("T%d(%s) is blocked at %s although it is inside %s and every other thread is parked in harness code, blocked or finished", x.ID, x.Name, x.pend.Kind, x.noBlock)
 		}
+	}
+	if len(enabled) == 0 {
+		// nobody who has not yielded can run: the yielders are all that is left (fair: they are only
+		// offered when everybody else is finished, blocked or has yielded too)
+		for _, x := range s.threads {
+			if !x.daemon && x.yielded && s.isReady(x) {
+				if x == t {
+					runEnabled = true
+					enabled = append([]*Thread{t}, enabled...)
+				} else {
+					enabled = append(enabled, x)
+				}
+			}
+		}
+	} else if yielding {
+		t.spin = 0
 	}
 	ordinary := len(enabled)
 	for _, x := range s.threads {
@@ -502,6 +527,18 @@ func (s *Sched) executed(t *Thread, op *Op) {
 		t.pendingInv = false
 		t.inv = s.clock
 		t.hash = mix(mix(t.hash, 0x1417), s.rtAcc)
+	}
+	if op.Write || op.ch != nil {
+		t.spin = 0
+	} else {
+		t.spin++
+	}
+	if !op.yield {
+		for _, x := range s.threads {
+			if x != t {
+				x.yielded = false // somebody else made a step: whoever yielded may look again
+			}
+		}
 	}
 	h := mix(t.hash, hashStr(op.Kind)+uint64(id)*1315423911)
 	if id > 0 {
@@ -599,6 +636,19 @@ func Yield(kind string, obj unsafe.Pointer, write bool) {
 		return
 	}
 	PointOp(&Op{Kind: kind, Obj: obj, Write: write})
+}
+
+// Gosched is the rewritten runtime.Gosched(): a scheduling point at which every other runnable
+// ordinary thread is preferred, at no cost (waiting loops must be visible and fair: a thread that spins
+// politely may not keep the thread it waits for from running).
+//
+//go:norace
+func Gosched() {
+	if cur == nil {
+		runtime.Gosched()
+		return
+	}
+	PointOp(&Op{Kind: "runtime.Gosched", yield: true})
 }
 
 // Self returns the id of the running model thread (-1 outside an execution).
